@@ -368,7 +368,8 @@ func (k *KVStore) Delete(hkey uint64) error {
 		if err != nil {
 			return err
 		}
-		break
+		// Keep scanning: superseded versions of the key may still live in
+		// older tables and must not become visible again.
 	}
 
 	return nil
